@@ -3,11 +3,15 @@ import Driver.Proto
 namespace Driver.C14
 open ArrModel Driver
 
-/-- case lines: `C14.<op> <elemtype> <a> <b>`; the element type (`i32`/`i64`/`f64`) only selects the Rust
-instantiation, the model is the same integer computation.  `open` = arm of `dot` outside the statement. -/
-def handle (op : String) (args : List String) : Option String :=
+/-- one call: `<op> <elemtype> <a> <b>`; the element type (`i32`/`i64`/`f64`/…) only selects the Rust
+instantiation, the model is the same integer computation.  `open` = arm of `dot` outside the statement.
+An element type ending in `n` (`i64n`, `f64n`, …) marks a HUGE case (16 384 … 140 000 elements) for which the
+list-backed model is too slow: the answer is `native`, the harness then judges the crate by its native term-list
+oracle, the very one it compares with this model on every smaller case of the same run. -/
+def handle1 (op : String) (args : List String) : Option String :=
   match args with
-  | [_ty, a, b] => do
+  | [ty, a, b] =>
+    if ty.endsWith "n" then (if op ∈ ["matmul", "dot", "vdot", "inner", "outer"] then some "native" else none) else do
     let a ← parseArr? a; let b ← parseArr? b
     match op with
     | "matmul" => some (showRes showArr (ArrModel.C14.matmul a b))
@@ -27,6 +31,26 @@ def handle (op : String) (args : List String) : Option String :=
     | "arm" => some ("ok " ++ ArrModel.C14.matmulArm a b)
     | _ => none
   | _ => none
+
+/-- the groups of a `seq` line: tokens between the separator token `|` -/
+def splitBar (l : List String) : List (List String) :=
+  l.foldr (fun t acc => if t == "|" then [] :: acc else
+    match acc with
+    | h :: r => (t :: h) :: r
+    | [] => [[t]]) [[]]
+
+/-- case lines: `C14.<op> <elemtype> <a> <b>`, or a sequence of calls executed back to back on one thread
+`C14.seq <op> <ty> <a> <b> | <op> <ty> <a> <b> | …` (answers joined by ` ;; `; the model has no state, so every call is
+answered on its own), or `C14.tally` (the harness reports its oracle-validation counters). -/
+def handle (op : String) (args : List String) : Option String :=
+  match op with
+  | "seq" => do
+    let rs ← (splitBar args).mapM (fun g => match g with
+      | o :: rest => handle1 o rest
+      | [] => none)
+    some (" ;; ".intercalate rs)
+  | "tally" => if args.isEmpty then some "ok tally" else none
+  | _ => handle1 op args
 
 end Driver.C14
 
